@@ -45,6 +45,9 @@ class World:
             if not nxt:
                 break
             chain.append(nxt[0])
+        self.super_meths: dict[str, ast.FunctionDef] = {}          # what zero-argument super() finds inside a method of `cls`
+        for c in reversed(chain[1:]):
+            self.super_meths.update(m.methods(c))
         self.fields: dict[str, Any] = {}
         for c in reversed(chain):
             for st in m.cls(c).body:
@@ -69,7 +72,12 @@ class World:
         self.props = {k for k, f in self.meths.items() if any(core.dotted(d) == "property" for d in f.decorator_list)}
         self.ctor = ctor or (lambda *a, **k: Rebuilt(_args=a, _kws=k))
         slot = lambda name: Stub(__get__=lambda o, *a: getattr(self._native_of(o), name))        # noqa: E731
-        self.timedelta = ClassStub(_new=lambda *a, **k: _dt.timedelta(*a, **k), _isa=lambda v: isinstance(v, (Obj, _dt.timedelta)),
+        def _native_timedelta(*a, **k):
+            try:
+                return _dt.timedelta(*a, **k)
+            except OverflowError as e:          # what the constructor of the C class raises for these numbers: an outcome of the analysed code
+                raise minieval.Raised(f"raise reached: OverflowError: {e}", "OverflowError") from None
+        self.timedelta = ClassStub(_new=_native_timedelta, _isa=lambda v: isinstance(v, (Obj, _dt.timedelta)),
                                    days=slot("days"), seconds=slot("seconds"), microseconds=slot("microseconds"),
                                    **{"__new__": self._td_new})
         self.duration_cls = ClassStub(_new=self.ctor, _isa=lambda v: isinstance(v, Obj))
@@ -92,7 +100,8 @@ class World:
         nat = {"days": native.days, "seconds": native.seconds, "total_seconds": native.total_seconds}
         if "microseconds" not in self.meths:
             nat["microseconds"] = native.microseconds
-        return Obj(_methods=self.meths, _props=self.props, _ctor=self.ctor, _native=native, _natives=nat, _types=(_dt.timedelta,), **{**self.fields, **fields})
+        sup = {"_super": (self.super_meths, self.glob)} if self.super_meths else {}
+        return Obj(_methods=self.meths, _props=self.props, _ctor=self.ctor, _native=native, _natives=nat, _types=(_dt.timedelta,), **sup, **{**self.fields, **fields})
 
     def normalised(self, years: int, months: int, total_us: int) -> Obj:
         """the instance Duration.__new__ is specified to leave for `years`, `months` and a signed rest in microseconds (that
